@@ -26,7 +26,8 @@ SAFE_PAYLOADS = [b'', b'x', b'line of text', b'-- a/file', b'++ b/file',
                  b'@@ -1 +1 @@', b' leading space', b'+', b'-',
                  b'\\ No newline at end of file', b'#.change:', b'tail ',
                  b'form\x0cfeed', b'vt\x0bx', b'fs\x1cx', b'lone\rcr',
-                 b'y' * 1500, b'cr at end\r', b'-- a/old name',
+                 b'y' * 1500, b'cr at end\r', b'-- a/old name', b'nul\x00byte',
+                 b'\x00',
                  b'++ b/new name']
 
 
